@@ -210,6 +210,26 @@ def squeezeImg (isnan : Nat → Bool) (w : Nat) (img : List (List (Option Nat)))
   let keep := (List.range w).filter (fun c => !(rows.all (fun r => isNanPx isnan (r.getD c none))))
   (rows.map (fun r => keep.map (fun c => r.getD c none)), keep.length)
 
+/-- specification of `squeeze`, stated without the mechanism's two passes: a pixel *holds data* when its sample is a
+number in at least one element; the result is the sub-image on the rows and on the columns (of the whole image) that
+hold data, in their order -/
+def pxHasData (isnan : Nat → Bool) (p : Option Nat) : Bool := !isNanPx isnan p
+
+/-- indices of the rows that hold data, increasing -/
+def keptRows (isnan : Nat → Bool) (img : List (List (Option Nat))) : List Nat :=
+  (List.range img.length).filter (fun i => (img.getD i []).any (pxHasData isnan))
+
+/-- indices of the columns that hold data in any row of the image, increasing -/
+def keptCols (isnan : Nat → Bool) (w : Nat) (img : List (List (Option Nat))) : List Nat :=
+  (List.range w).filter (fun c => img.any (fun r => pxHasData isnan (r.getD c none)))
+
+def squeezeSpec (isnan : Nat → Bool) (w : Nat) (img : List (List (Option Nat))) : List (List (Option Nat)) :=
+  (keptRows isnan img).map (fun i => (keptCols isnan w img).map (fun c => (img.getD i []).getD c none))
+
+/-- `np.all([np.isnan(sync[n]) for n in sync.dtype.names], axis=0)`: sample `k` is NaN in every element; one mask
+per element -/
+def allNan (masks : List (Nat → Bool)) (k : Nat) : Bool := masks.all (fun m => m k)
+
 /-! ## the whole function -/
 
 structure Result where
@@ -292,6 +312,198 @@ def Clock.times (n : Nat) : Clock → List Rat
 def syncClock (rows : List Row) (sel : Option (List Int)) (shape : List Nat) (clk : Clock) (delay : Rat)
     (isnan : Nat → Bool) (squeeze : Bool) : Except String Result :=
   sync rows sel (clk.times (dataSize shape)) delay isnan squeeze
+
+/-! ## the log as text: what the instrument writes, what `read_nwi_laser_log` reads
+
+Specification side: the calendar (`civilOfDay`: walk the years, then the months, from 1970-01-01), the stamp
+`YYYY-MM-DD HH:MM:SS.mmm`, four-decimal coordinates, comma-separated fields (`fmtLine`).  Mechanism side: `splitComma`,
+the columns `read_nwi_laser_log` keeps (0, 1, 5, 6, 10, 13; state cut to 3, spot size to 16 characters), numpy's ISO
+stamp → `datetime64[ms]` conversion with its closed-form day count (`daysOfCivil`), blank `int` fields → -1. -/
+
+def isLeap (y : Nat) : Bool := (y % 4 == 0 && y % 100 != 0) || y % 400 == 0
+
+def monthLen (y m : Nat) : Nat :=
+  if m = 2 then (if isLeap y then 29 else 28) else if m = 4 ∨ m = 6 ∨ m = 9 ∨ m = 11 then 30 else 31
+
+def yearLen (y : Nat) : Nat := if isLeap y then 366 else 365
+
+/-- (year, day of the year counted from 0) reached from 1 January of `y` after `d` more days; `fuel > d` -/
+def walkYears : Nat → Nat → Nat → Nat × Nat
+  | 0, y, d => (y, d)
+  | f + 1, y, d => if d < yearLen y then (y, d) else walkYears f (y + 1) (d - yearLen y)
+
+/-- (month, day of the month counted from 0) reached from the first of month `m` after `d` more days -/
+def walkMonths : Nat → Nat → Nat → Nat → Nat × Nat
+  | 0, _, m, d => (m, d)
+  | f + 1, y, m, d => if d < monthLen y m then (m, d) else walkMonths f y (m + 1) (d - monthLen y m)
+
+structure Civil where
+  y : Nat
+  m : Nat
+  d : Nat
+  deriving Repr, DecidableEq
+
+/-- calendar date of day number `n` (days since 1970-01-01) -/
+def civilOfDay (n : Nat) : Civil :=
+  let yd := walkYears (n + 1) 1970 n
+  let md := walkMonths 12 yd.1 1 yd.2
+  { y := yd.1, m := md.1, d := md.2 + 1 }
+
+/-- numpy `get_datetimestruct_days`, the loop over the months before `m` -/
+def monthsBefore (y m : Nat) : Nat := ((List.range (m - 1)).map (fun i => monthLen y (i + 1))).sum
+
+/-- numpy `get_datetimestruct_days`, years ≥ 1970: `year * 365`, plus one day for every fourth year counted from 1968,
+minus one for every hundredth counted from 1900, plus one for every four-hundredth counted from 1600 -/
+def daysBeforeYearK (k : Nat) : Nat := k * 365 + (k + 1) / 4 + (k + 369) / 400 - (k + 69) / 100
+
+def daysBeforeYear (y : Nat) : Nat := daysBeforeYearK (y - 1970)
+
+/-- days since 1970-01-01 of a calendar date -/
+def daysOfCivil (c : Civil) : Nat := daysBeforeYear c.y + monthsBefore c.y c.m + (c.d - 1)
+
+def pad2 (n : Nat) : List Char := [Nat.digitChar (n / 10 % 10), Nat.digitChar (n % 10)]
+def pad3 (n : Nat) : List Char := [Nat.digitChar (n / 100 % 10), Nat.digitChar (n / 10 % 10), Nat.digitChar (n % 10)]
+def pad4 (n : Nat) : List Char :=
+  [Nat.digitChar (n / 1000 % 10), Nat.digitChar (n / 100 % 10), Nat.digitChar (n / 10 % 10), Nat.digitChar (n % 10)]
+
+/-- what the instrument writes for the instant `T` ms after 1970-01-01 00:00: `2024-07-17 13:12:58.112` -/
+def fmtStamp (T : Nat) : List Char :=
+  let c := civilOfDay (T / 86400000)
+  let r := T % 86400000
+  pad4 c.y ++ '-' :: pad2 c.m ++ '-' :: pad2 c.d ++ ' ' :: pad2 (r / 3600000) ++ ':' :: pad2 (r / 60000 % 60) ++
+    ':' :: pad2 (r / 1000 % 60) ++ '.' :: pad3 (r % 1000)
+
+/-- `datetime64[ms]` (ms since 1970-01-01) of an ISO stamp with a millisecond fraction, date and time separated by a
+blank or a `T`; the ranges of month, day, hour … are not validated here -/
+def parseStamp (cs : List Char) : Option Nat :=
+  match cs with
+  | [y1, y2, y3, y4, '-', m1, m2, '-', d1, d2, sep, h1, h2, ':', n1, n2, ':', s1, s2, '.', f1, f2, f3] =>
+    if sep = ' ' ∨ sep = 'T' then do
+      let y ← digitsVal [y1, y2, y3, y4]
+      let m ← digitsVal [m1, m2]
+      let d ← digitsVal [d1, d2]
+      let h ← digitsVal [h1, h2]
+      let n ← digitsVal [n1, n2]
+      let s ← digitsVal [s1, s2]
+      let f ← digitsVal [f1, f2, f3]
+      pure (daysOfCivil { y := y, m := m, d := d } * 86400000 + ((h * 60 + n) * 60 + s) * 1000 + f)
+    else none
+  | _ => none
+
+/-- `line.split(",")` -/
+def splitComma : List Char → List (List Char)
+  | [] => [[]]
+  | c :: rest =>
+    if c = ',' then [] :: splitComma rest
+    else match splitComma rest with
+      | [] => [[c]]
+      | p :: ps => (c :: p) :: ps
+
+def joinComma : List (List Char) → List Char
+  | [] => []
+  | [f] => f
+  | f :: g :: fs => f ++ ',' :: joinComma (g :: fs)
+
+/-- a stage coordinate in 1e-4 µm as the log prints it: sign, integer part, four decimals -/
+def fmtFixed4 (u : Int) : List Char :=
+  (if u < 0 then ['-'] else []) ++ Nat.toDigits 10 (u.natAbs / 10000) ++ '.' :: pad4 (u.natAbs % 10000)
+
+/-- `float(field)` of such a number, in 1e-4 µm -/
+def parseFixed4 (cs : List Char) : Option Int :=
+  let neg := cs.head? == some '-'
+  let body := if neg then cs.drop 1 else cs
+  let ip := body.takeWhile (· != '.')
+  let fp := (body.dropWhile (· != '.')).drop 1
+  if fp.length = 4 then do
+    let a ← digitsVal ip
+    let b ← digitsVal fp
+    pure (if neg then -((a * 10000 + b : Nat) : Int) else ((a * 10000 + b : Nat) : Int))
+  else none
+
+/-- the columns of a line that the synchronisation never reads: sub-point and vertex number, comment, intended
+coordinates, scan velocity, repetition rate, spot type -/
+structure Extras where
+  sub : List Char
+  vertex : List Char
+  comment : List Char
+  ix : List Char
+  iy : List Char
+  vel : List Char
+  rate : List Char
+  spotType : List Char
+
+/-- no unread column holds a comma -/
+def Extras.clean (e : Extras) : Prop :=
+  ∀ f ∈ [e.sub, e.vertex, e.comment, e.ix, e.iy, e.vel, e.rate, e.spotType], ∀ c ∈ f, c ≠ ','
+
+/-- the sequence number column: blank on all rows but the first of a pattern -/
+def fmtSeq (s : Int) : List Char := if s = -1 then [] else Nat.toDigits 10 s.toNat
+
+/-- an `int` column read by `np.genfromtxt`: a blank field is filled with -1 -/
+def parseIntField (cs : List Char) : Option Int :=
+  if cs.isEmpty then some (-1)
+  else match digitsVal cs with
+    | some n => some (Int.ofNat n)
+    | none => none
+
+/-- the line the instrument writes for row `r` when laser clock 0 is `base` ms after 1970-01-01 -/
+def fmtLine (base : Int) (r : Row) (e : Extras) : List Char :=
+  joinComma [fmtStamp (base + r.time).toNat, fmtSeq r.seq, e.sub, e.vertex, e.comment, fmtFixed4 r.x, fmtFixed4 r.y,
+    e.ix, e.iy, e.vel, if r.on then ['O', 'n'] else ['O', 'f', 'f'], e.rate, e.spotType, r.spot.toList]
+
+/-- `read_nwi_laser_log` on one line: columns 0, 1, 5, 6, 10, 13 (state kept to 3, spot size to 16 characters);
+`none` = the line has fewer than 14 fields or a field does not convert -/
+def parseLine (cs : List Char) : Option Row :=
+  let f := splitComma cs
+  if f.length < 14 then none
+  else do
+    let t ← parseStamp (f.getD 0 [])
+    let s ← parseIntField (f.getD 1 [])
+    let x ← parseFixed4 (f.getD 5 [])
+    let y ← parseFixed4 (f.getD 6 [])
+    pure { time := (t : Int), seq := s, x := x, y := y, on := (f.getD 10 []).take 3 == ['O', 'n'],
+           spot := String.ofList ((f.getD 13 []).take 16) }
+
+/-- a row at its absolute time: `b` = ms from 1970-01-01 to laser clock 0 -/
+def shiftRow (b : Int) (r : Row) : Row := { r with time := b + r.time }
+
+/-- the data lines of the log file -/
+def renderLog (base : Int) (l : List (Row × Extras)) : List (List Char) := l.map (fun re => fmtLine base re.1 re.2)
+
+/-- `read_nwi_laser_log` on the data lines (before the forward fill, which `selectRows` does) -/
+def parseLog (lines : List (List Char)) : Option (List Row) := lines.mapM parseLine
+
+/-- what the instrument writes in the unread columns: sub-point 1 and the comment on the first row of a pattern,
+intended coordinates and the scan velocity on stage-move rows (laser off, not the end of a line), the repetition rate
+while the laser fires -/
+def extrasOf (prevOn : Bool) (r : Row) : Extras :=
+  let hdr := r.seq != -1
+  let move := !r.on && !prevOn && !hdr
+  { sub := if hdr then ['1'] else []
+    vertex := []
+    comment := if hdr then "Image Raster".toList ++ Nat.toDigits 10 r.seq.toNat else []
+    ix := if move then fmtFixed4 r.x else []
+    iy := if move then fmtFixed4 r.y else []
+    vel := if move then ['4', '0', '0'] else []
+    rate := if r.on then ['2', '0', '0'] else ['0']
+    spotType := [] }
+
+def withExtras : Bool → List Row → List (Row × Extras)
+  | _, [] => []
+  | prevOn, r :: rs => (r, extrasOf prevOn r) :: withExtras r.on rs
+
+/-- the hypotheses of the text layer that can be computed: the log starts after 1970-01-01, ends before the year
+10000, sequence numbers are blank (-1) or ≥ 0, and no spot size needs more than the 16 characters the reader keeps -/
+def textHyp (base : Int) (rows : List Row) : Bool :=
+  rows.all (fun r => decide (0 ≤ base + r.time) && decide (base + r.time < 253402300800000) &&
+    (decide (r.seq = -1) || decide (0 ≤ r.seq)) && decide (r.spot.toList.length ≤ 16) && !r.spot.toList.contains ',')
+
+/-- the whole chain from the text: the data lines are read, then synchronised; an unreadable line is a ValueError -/
+def syncText (lines : List (List Char)) (sel : Option (List Int)) (shape : List Nat) (clk : Clock) (delay : Rat)
+    (isnan : Nat → Bool) (squeeze : Bool) : Except String Result :=
+  match parseLog lines with
+  | none => .error "ValueError"
+  | some rows => syncClock rows sel shape clk delay isnan squeeze
 
 /-! ## specification: rendering a rastered acquisition, and its ground-truth image -/
 
